@@ -10,6 +10,7 @@ mod exact;
 mod graphrun;
 mod lfo;
 mod midi;
+mod quant;
 mod util;
 
 use util::*;
@@ -52,6 +53,7 @@ fn main() {
                 "midi" => midi::record(driver, seed, thorough, &mut out),
                 "lfo" => lfo::record(driver, seed, thorough, &mut out),
                 "adsr" => adsr::record(driver, seed, thorough, &mut out),
+                "quant" => quant::record(driver, seed, thorough, &mut out),
                 _ => usage(),
             };
             let n = out.finish();
@@ -69,6 +71,7 @@ fn main() {
                 "midi" => midi::rerun(&lines, &mut out),
                 "lfo" => lfo::rerun(&lines, &mut out),
                 "adsr" => adsr::rerun(&lines, &mut out),
+                "quant" => quant::rerun(&lines, &mut out),
                 _ => usage(),
             }
             out.finish();
